@@ -299,6 +299,12 @@ func (r *transport) handleCacheHit(
 	ccReq := internal.ParseCCRequestDirectives(req.Header)
 	ccResp := internal.ParseCCResponseDirectives(stored.Data.Header)
 	freshness := r.fc.CalculateFreshness(stored, ccReq, ccResp)
+	if reqMaxAge, ok := ccReq.MaxAge(); ok && reqMaxAge == 0 {
+		// CalculateFreshness answers max-age=0 without looking at the stored
+		// response and reports an age of zero; the real age is needed for the
+		// Age header and the stale-if-error window.
+		freshness.Age = r.fc.CalculateFreshness(stored, nil, ccResp).Age
+	}
 	respNoCacheFieldsRaw, hasRespNoCache := ccResp.NoCache()
 	respNoCacheFieldsSeq, isRespNoCacheQualified := respNoCacheFieldsRaw.Value()
 
